@@ -1011,7 +1011,7 @@ def life_directed() -> List[Dict[str, Any]]:
         (12, [(12, True)], 0, [("connect", 0), ("connect", 1), sub("subscribe", [101]), ("connect", 1)]),
         # every dynamic id taken: refused
         (0, [], 100, [("connect", 0)]),
-        # open finding C02-F4: the handshake is answered too late; the object stays "connected" with the old sets
+        # C02-F4 (fixed by 5d9f32d): the handshake is answered too late; the object must end disconnected
         (12, [], 0, [("connect", 0), sub("subscribe", [101, 102]), ("lostRead", 1), ("connectLate", 0), sub("subscribe", [103]),
                      ("connect", 0)]),
         (0, [], 0, [("connect", 0), sub("subscribe", [ALLT]), ("lostSend", 0), ("connectLate", 0), ("disconnect",), ("connect", 0)]),
